@@ -71,7 +71,7 @@ pub fn gen_endgame_exclusive(r: &mut Rng, seed: u64) -> Scenario {
         peers.push(PeerSpec { addr: addr(k), id: peer_id(k), entry: Entry::Dialled { from_announce: 0 }, make: Box::new(move |nth| if nth > 3 { None } else { Some(seeder(c2.clone())) }), chunk: 0, pipe: 1 << 20 });
     }
     let desc = json!({"seed": seed, "family": "endgame-cancel-then-exclusive-piece", "piece_length": piece_len, "pieces": n, "total": total, "peers": pdesc});
-    Scenario { cfg: SimCfg { torrent, peers, tracker: vec![], failpoints: if r.chance(1, 2) { Some(r.next()) } else { None }, max_virtual_ms: 600_000 + 360_000 * 3, stop_on_extract: true, linger_ms: 200, disk_on: disk_never, seed, tracker_fn: None, driver: None }, desc, sig: hash64(&("endgame-exclusive", n, piece_len / 16384)) }
+    Scenario { cfg: SimCfg { torrent, peers, tracker: vec![], failpoints: if r.chance(1, 2) { Some(r.next()) } else { None }, max_virtual_ms: 600_000 + 360_000 * 3, stop_on_extract: true, linger_ms: 200, disk_on: disk_never, seed, pre: None, tracker_fn: None, driver: None }, desc, sig: hash64(&("endgame-exclusive", n, piece_len / 16384)) }
 }
 
 /// Family: one to three pieces and many honest peers that all have everything: several of them
@@ -95,12 +95,49 @@ pub fn gen_many_seeders_few_pieces(r: &mut Rng, seed: u64) -> Scenario {
         peers.push(PeerSpec { addr: addr(k), id: peer_id(k), entry: Entry::Dialled { from_announce: 0 }, make: Box::new(move |nth| if nth > 3 { None } else { Some(seeder(c2.clone())) }), chunk: 0, pipe: 1 << 20 });
     }
     let desc = json!({"seed": seed, "family": "many-seeders-few-pieces", "piece_length": piece_len, "pieces": n, "total": total, "peers": pdesc});
-    Scenario { cfg: SimCfg { torrent, peers, tracker: vec![], failpoints: if r.chance(1, 2) { Some(r.next()) } else { None }, max_virtual_ms: 600_000 + 360_000 * 3, stop_on_extract: true, linger_ms: 200, disk_on: disk_never, seed, tracker_fn: None, driver: None }, desc, sig: hash64(&("many-seeders", n, np, piece_len / 16384)) }
+    Scenario { cfg: SimCfg { torrent, peers, tracker: vec![], failpoints: if r.chance(1, 2) { Some(r.next()) } else { None }, max_virtual_ms: 600_000 + 360_000 * 3, stop_on_extract: true, linger_ms: 200, disk_on: disk_never, seed, pre: None, tracker_fn: None, driver: None }, desc, sig: hash64(&("many-seeders", n, np, piece_len / 16384)) }
+}
+
+/// Family: the tracker lists more peers than the client dials at once (11); the only useful peers
+/// come first in the list (they are dialled last) and everybody dialled before them is useless:
+/// nobody listening, an empty bitfield followed by a disconnect, or silence.
+pub fn gen_useless_crowd(r: &mut Rng, seed: u64) -> Scenario {
+    let torrent = Rc::new(gen_sim_torrent(r, 6, true));
+    let n = torrent.n();
+    let useful = r.range(1, 2) as usize;
+    let useless = r.range(11, 15) as usize;
+    let mut peers = vec![];
+    let mut pdesc = vec![];
+    for k in 0..useful {
+        let mut c = SeederCfg::honest(peer_id(k), vec![true; n]);
+        c.unchoke_after_ms = Some(0);
+        c.idle_close_ms = 30_000;
+        pdesc.push(json!({"addr": addr(k), "essential": true, "pieces": "all"}));
+        let c2 = c.clone();
+        peers.push(PeerSpec { addr: addr(k), id: peer_id(k), entry: Entry::Dialled { from_announce: 0 }, make: Box::new(move |nth| if nth > 4 { None } else { Some(seeder(c2.clone())) }), chunk: 0, pipe: 1 << 20 });
+    }
+    for j in 0..useless {
+        let k = useful + j;
+        let kind = r.below(3);
+        let mut c = SeederCfg::honest(peer_id(k), vec![false; n]);
+        c.unchoke_after_ms = Some(10_000_000);
+        c.idle_close_ms = if kind == 1 { r.range(10, 3_000) } else { 100_000_000 };
+        let kind_name = ["nobody listens", "empty bitfield, then disconnects", "empty bitfield, then silent"][kind as usize];
+        pdesc.push(json!({"addr": addr(k), "essential": false, "kind": kind_name}));
+        let c2 = c.clone();
+        peers.push(PeerSpec { addr: addr(k), id: peer_id(k), entry: Entry::Dialled { from_announce: 0 }, make: Box::new(move |nth| if kind == 0 || nth > 1 { None } else { Some(seeder(c2.clone())) }), chunk: 0, pipe: 1 << 20 });
+    }
+    let desc = json!({"seed": seed, "family": "useless-crowd-dialled-before-the-seeders", "pieces": n, "piece_length": torrent.piece_len, "peers": pdesc});
+    let max_virtual_ms = 600_000 + 360_000 * (useless as u64 + 2);
+    Scenario { cfg: SimCfg { torrent, peers, tracker: vec![], failpoints: None, max_virtual_ms, stop_on_extract: true, linger_ms: 200, disk_on: disk_never, seed, pre: None, tracker_fn: None, driver: None }, desc, sig: hash64(&("useless-crowd", n, useful, useless)) }
 }
 
 pub fn gen_scenario(r: &mut Rng, seed: u64) -> Scenario {
     if r.chance(1, 8) {
         return gen_endgame_exclusive(r, seed);
+    }
+    if r.chance(1, 12) {
+        return gen_useless_crowd(r, seed);
     }
     if r.chance(1, 7) {
         return gen_many_seeders_few_pieces(r, seed);
@@ -157,7 +194,7 @@ pub fn gen_scenario(r: &mut Rng, seed: u64) -> Scenario {
     let sig = hash64(&(torrent.piece_len, n, torrent.files.len(), honest, extra));
     let max_virtual_ms = 600_000 + 360_000 * (honest + extra + 1) as u64;
     Scenario {
-        cfg: SimCfg { torrent, peers, tracker, failpoints, max_virtual_ms, stop_on_extract: true, linger_ms: 200, disk_on: disk_never, seed, tracker_fn: None, driver: None },
+        cfg: SimCfg { torrent, peers, tracker, failpoints, max_virtual_ms, stop_on_extract: true, linger_ms: 200, disk_on: disk_never, seed, pre: None, tracker_fn: None, driver: None },
         desc,
         sig,
     }
